@@ -1,292 +1,11 @@
 import NasdaqModel.Lemmas.SyncFacadeInv2
 /-
-Third invariant (holds along runs that stay outside the excluded region `okStep`): once `AsyncSession.close` has
-begun no coroutine is waiting to be run and no receive is blocked; a blocked receive is the one in the queue's
-`_recv_task` slot.  From the three invariants: a state without enabled transition has every caller returned
-(or legitimately waiting for the peer).
+Progress for the C20 model (repaired code): from the invariants Inv1, Inv2 and "the lock owner exists", a state without
+enabled transition has every caller returned or legitimately waiting for the peer — for EVERY run.
+Separately (third invariant, along runs that stay inside `okStep`): a blocked receive is the one in the queue's
+`_recv_task` slot, so closing answers it with EndOfQueue.
 -/
 namespace NasdaqModel.SyncFacade
-
-def cinv3 (closed : Bool) (rt : Option Nat) (i : Nat) (c : Caller) : Prop :=
-  (∀ k, c.job = .submitted k → closed = false) ∧ (∀ t, c.job = .blocked t → closed = false ∧ rt = some i)
-
-def Inv3 (s : St) : Prop :=
-  ∀ (i : Nat) (c : Caller), s.callers[i]? = some c → cinv3 s.sessClosed s.recvTask i c
-
-theorem sessClosed_initiate (p : ClosePc) : p.initiate.sessClosed = p.sessClosed := by
-  cases p <;> rfl
-
-theorem any_isSubmitted_false {cs : List Caller} (h : cs.any isSubmitted = false) :
-    ∀ (m : Nat) (c : Caller), cs[m]? = some c → ∀ k, c.job ≠ .submitted k := by
-  intro m c hc k hk
-  have hmem : c ∈ cs := List.mem_of_getElem? hc
-  have : isSubmitted c = true := by simp [isSubmitted, hk]
-  have : cs.any isSubmitted = true := List.any_eq_true.mpr ⟨c, hmem, this⟩
-  simp [h] at this
-
-theorem anyBlocked_false {cs : List Caller} (h : anyBlocked cs = false) :
-    ∀ (m : Nat) (c : Caller), cs[m]? = some c → ∀ t, c.job ≠ .blocked t := by
-  intro m c hc t ht
-  have hmem : c ∈ cs := List.mem_of_getElem? hc
-  have : anyBlocked cs = true := by
-    unfold anyBlocked
-    exact List.any_eq_true.mpr ⟨c, hmem, by simp [ht]⟩
-  simp [h] at this
-
-theorem callerStep_cinv3 {lock : Option Tid} {evt alive closed : Bool} {rt : Option Nat} {i : Nat} {c c' : Caller}
-    {lk : Option Tid} (h3 : cinv3 closed rt i c) (hj : jobOk c = true) (hs : c.pc = .submit → closed = false)
-    (h : callerStep lock evt alive i c = some (c', lk)) : cinv3 closed rt i c' := by
-  obtain ⟨a, b⟩ := h3
-  unfold callerStep at h
-  rcases c with ⟨prog, pc, job, hist⟩
-  cases prog with
-  | nil => simp at h
-  | cons op rest =>
-    simp only at a b hs
-    cases pc <;> cases op <;> simp only [] at h <;> (repeat' (split at h)) <;>
-      first
-      | (simp only [reduceCtorEq] at h; done)
-      | (simp only [Option.some.injEq, Prod.mk.injEq] at h
-         obtain ⟨rfl, rfl⟩ := h
-         simp_all [cinv3, jobOk, finish])
-
-theorem inv3_stepCaller {s s' : St} {i : Nat} (h1 : Inv1 s) (h3 : Inv3 s) (hok : okStep s (.caller i) = true)
-    (h : stepCaller s i = some s') : Inv3 s' := by
-  obtain ⟨c, c', lk, hc, hcs, rfl⟩ := stepCaller_spec h
-  have hsub : c.pc = .submit → s.sessClosed = false := by
-    intro hp
-    simp only [okStep, hc, hp] at hok
-    simpa using hok
-  have hc3 := callerStep_cinv3 (h3 i c hc) (h1.2 i c hc).2.1 hsub hcs
-  intro j cj hj
-  simp only [St.sessClosed] at hj ⊢
-  rw [getElem?_updAt] at hj
-  split at hj
-  · subst j; simp [hc] at hj; subst hj; exact hc3
-  · exact h3 j cj hj
-
-theorem cinv3_done {closed : Bool} {rt : Option Nat} {i : Nat} {c : Caller} {o : Outcome} :
-    cinv3 closed rt i (setJob (.done o) c) := by
-  simp [cinv3, setJob]
-
-theorem cinv3_running {closed : Bool} {rt : Option Nat} {i : Nat} {c : Caller} :
-    cinv3 closed rt i (setJob .running c) := by
-  simp [cinv3, setJob]
-
-theorem inv3_stepJob {s s' : St} {i : Nat} (h3 : Inv3 s) (hok : okStep s (.job i) = true)
-    (h : stepJob s i = some s') : Inv3 s' := by
-  unfold stepJob at h
-  split at h
-  · split at h
-    · simp at h
-    · rename_i c hc
-      -- every branch except "receive goes to wait" stores a finished / running future and keeps `_closed`, `_recv_task`
-      have easy : ∀ (j : Job) (q : Nat) (p : ClosePc), p.sessClosed = s.closePc.sessClosed →
-          (∀ closed rt, cinv3 closed rt i (setJob j c)) →
-          Inv3 { s with callers := updAt s.callers i (setJob j), queue := q, closePc := p } := by
-        intro j q p hp hcj m cm hm
-        simp only [St.sessClosed, hp] at hm ⊢
-        rw [getElem?_updAt] at hm
-        split at hm
-        · subst m; simp [hc] at hm; subst hm; exact hcj _ _
-        · exact h3 m cm hm
-      split at h
-      · rename_i hjob
-        split at h
-        · simp only [Option.some.injEq] at h; subst h
-          exact easy _ _ _ rfl (fun _ _ => cinv3_done)
-        · split at h
-          · simp only [Option.some.injEq] at h; subst h
-            exact easy _ s.queue _ rfl (fun _ _ => cinv3_done)
-          · rename_i hq hcl
-            simp only [Option.some.injEq] at h; subst h
-            have hnb : anyBlocked s.callers = false := by
-              simp only [okStep, hc, hjob] at hok
-              have hq0 : s.queue = 0 := by omega
-              simp only [Bool.not_eq_true] at hcl
-              simpa [hq0, hcl] using hok
-            intro m cm hm
-            simp only [St.sessClosed] at hm ⊢
-            rw [getElem?_updAt] at hm
-            split at hm
-            · subst m; simp [hc] at hm; subst hm
-              simp only [Bool.not_eq_true] at hcl
-              simp [cinv3, setJob, St.sessClosed] at hcl ⊢
-              exact hcl
-            · have := h3 m cm hm
-              refine ⟨this.1, ?_⟩
-              intro t ht
-              exact absurd ht (anyBlocked_false hnb m cm hm t)
-      · simp only [Option.some.injEq] at h; subst h
-        exact easy _ s.queue _ rfl (fun _ _ => cinv3_done)
-      · simp only [Option.some.injEq] at h; subst h
-        exact easy _ s.queue _ (sessClosed_initiate _) (fun _ _ => cinv3_done)
-      · simp only [Option.some.injEq] at h; subst h
-        exact easy _ s.queue _ (sessClosed_initiate _) (fun _ _ => cinv3_done)
-      · simp only [Option.some.injEq] at h; subst h
-        exact easy _ s.queue _ rfl (fun _ _ => cinv3_running)
-      · simp at h
-  · simp at h
-
-/-- all futures are finished / running / absent -/
-def quiet (c : Caller) : Prop := (∀ k, c.job ≠ .submitted k) ∧ (∀ t, c.job ≠ .blocked t)
-
-theorem cinv3_of_quiet {closed : Bool} {rt : Option Nat} {i : Nat} {c : Caller} (h : quiet c) : cinv3 closed rt i c :=
-  ⟨fun k hk => absurd hk (h.1 k), fun t ht => absurd ht (h.2 t)⟩
-
-theorem quiet_resolveBlocked (o : Outcome) (c : Caller) (h : ∀ k, c.job ≠ .submitted k) : quiet (resolveBlocked o c) := by
-  unfold resolveBlocked
-  split
-  · simp [quiet]
-  · rename_i hnb
-    exact ⟨h, fun t ht => hnb t ht⟩
-
-theorem inv3_stepClose {s s' : St} (h3 : Inv3 s) (h : stepClose s = some s') : Inv3 s' := by
-  unfold stepClose at h
-  split at h <;> rename_i hpc
-  · simp at h
-  · split at h
-    · simp at h
-    · rename_i hns
-      simp only [Bool.not_eq_true] at hns
-      have nosub := any_isSubmitted_false hns
-      have hcl : s.sessClosed = false := by simp [St.sessClosed, hpc, ClosePc.sessClosed]
-      split at h
-      · rename_i jj hrt
-        simp only [Option.some.injEq] at h; subst h
-        intro m cm hm
-        apply cinv3_of_quiet
-        simp only at hm
-        rw [getElem?_updAt] at hm
-        split at hm
-        · subst m
-          cases hj : s.callers[jj]? with
-          | none => simp [hj] at hm
-          | some cj => simp [hj] at hm; subst hm; exact quiet_resolveBlocked _ _ (nosub jj cj hj)
-        · rename_i hne
-          refine ⟨nosub m cm hm, fun t ht => ?_⟩
-          have := ((h3 m cm hm).2 t ht).2
-          rw [hrt] at this
-          simp at this
-          exact hne this.symm
-      · rename_i hrt
-        simp only [Option.some.injEq] at h; subst h
-        intro m cm hm
-        apply cinv3_of_quiet
-        refine ⟨nosub m cm hm, fun t ht => ?_⟩
-        have := ((h3 m cm hm).2 t ht).2
-        rw [hrt] at this
-        simp at this
-  all_goals
-    ((repeat' split at h) <;> first
-      | (simp at h; done)
-      | (simp only [Option.some.injEq] at h; subst h
-         intro m cm hm
-         have := h3 m cm hm
-         simpa [St.sessClosed, hpc, ClosePc.sessClosed] using this))
-
-theorem inv3_stepStop {s s' : St} (h3 : Inv3 s) (h : stepStop s = some s') : Inv3 s' := by
-  unfold stepStop at h
-  split at h
-  · simp only [Option.some.injEq] at h; subst h; exact h3
-  · simp at h
-
-theorem inv3_stepPeer {s s' : St} (h3 : Inv3 s) (h : stepPeer s = some s') : Inv3 s' := by
-  unfold stepPeer at h
-  split at h
-  · simp at h
-  · rename_i ev rest hp
-    split at h
-    · simp at h
-    · split at h
-      · simp only [Option.some.injEq] at h; subst h; exact h3
-      · split at h
-        · split at h
-          · simp only [Option.some.injEq] at h; subst h; exact h3
-          · split at h
-            · rename_i hh t hm
-              simp only [Option.some.injEq] at h; subst h
-              -- after the wake-up nobody is blocked any more: a blocked caller is the one in the slot
-              intro m cm hcm
-              simp only [St.sessClosed] at hcm ⊢
-              have base : ∀ c0, (updAt s.callers hh (setJob (.done .msg)))[m]? = some c0 →
-                  (∀ k, c0.job = .submitted k → s.closePc.sessClosed = false) ∧
-                  (∀ t, c0.job = .blocked t → s.recvTask = some m ∧ m ≠ hh) := by
-                intro c0 h0
-                rw [getElem?_updAt] at h0
-                split at h0
-                · subst m
-                  cases hj : s.callers[hh]? with
-                  | none => simp [hj] at h0
-                  | some cj => simp [hj] at h0; subst h0; simp [setJob]
-                · rename_i hne
-                  have := h3 m c0 h0
-                  exact ⟨this.1, fun t ht => ⟨(this.2 t ht).2, hne⟩⟩
-              split at hcm
-              · rename_i jj hrt
-                split at hcm
-                · obtain ⟨b1, b2⟩ := base cm hcm
-                  refine ⟨b1, fun t ht => ?_⟩
-                  have := b2 t ht
-                  rw [hrt] at this
-                  simp at this
-                  omega
-                · rename_i hjne
-                  rw [getElem?_updAt] at hcm
-                  split at hcm
-                  · subst m
-                    cases hj : (updAt s.callers hh (setJob (.done .msg)))[jj]? with
-                    | none => simp [hj] at hcm
-                    | some cj =>
-                      simp [hj] at hcm; subst hcm
-                      obtain ⟨b1, _⟩ := base cj hj
-                      have q := quiet_resolveBlocked .cancelled cj
-                      unfold resolveBlocked
-                      split
-                      · simp [cinv3]
-                      · rename_i hnb
-                        exact ⟨b1, fun t ht => absurd ht (hnb t)⟩
-                  · rename_i hmne
-                    obtain ⟨b1, b2⟩ := base cm hcm
-                    refine ⟨b1, fun t ht => ?_⟩
-                    have := (b2 t ht).1
-                    rw [hrt] at this
-                    simp at this
-                    exact absurd this.symm hmne
-              · rename_i hrt
-                obtain ⟨b1, b2⟩ := base cm hcm
-                refine ⟨b1, fun t ht => ?_⟩
-                have := (b2 t ht).1
-                rw [hrt] at this
-                simp at this
-            · simp only [Option.some.injEq] at h; subst h; exact h3
-        all_goals
-          (simp only [Option.some.injEq] at h; subst h
-           intro m cm hm
-           have := h3 m cm hm
-           simpa [St.sessClosed, sessClosed_initiate] using this)
-
-theorem inv3_step {s s' : St} {l : Label} (h1 : Inv1 s) (h3 : Inv3 s) (hok : okStep s l = true)
-    (h : step s l = some s') : Inv3 s' := by
-  cases l with
-  | caller i => exact inv3_stepCaller h1 h3 hok h
-  | job i => exact inv3_stepJob h3 hok h
-  | close => exact inv3_stepClose h3 h
-  | stop => exact inv3_stepStop h3 h
-  | peer => exact inv3_stepPeer h3 h
-
-theorem inv3_init (cfg : Cfg) : Inv3 (init cfg) := by
-  intro i c hc
-  simp only [init, List.getElem?_map] at hc
-  cases hp : cfg.progs[i]? with
-  | none => simp [hp] at hc
-  | some p => simp [hp] at hc; subst hc; simp [cinv3, initCaller]
-
-theorem inv123_execOk {cfg : Cfg} {ls : List Label} {s : St} (h : execOk (init cfg) ls = some s) :
-    Inv1 s ∧ Inv2 s ∧ Inv3 s :=
-  execOk_invariant (fun s => Inv1 s ∧ Inv2 s ∧ Inv3 s)
-    (fun _ _ _ hI hok hs => ⟨inv1_step hI.1 hs, inv2_step hI.1 hI.2.1 hs, inv3_step hI.1 hI.2.2 hok hs⟩)
-    ls _ s ⟨inv1_init cfg, inv2_init cfg, inv3_init cfg⟩ h
 
 /-! ### the lock owner is an existing thread -/
 
@@ -339,25 +58,22 @@ theorem invL_step {s s' : St} {l : Label} (h1 : Inv1 s) (hL : InvL s) (h : step 
 theorem invL_init (cfg : Cfg) : InvL (init cfg) := by
   intro k hk; simp [init] at hk
 
-/-- everything that holds at the end of a run that stayed outside the excluded region -/
+/-- the invariants of every reachable state -/
 structure Invs (s : St) : Prop where
   i1 : Inv1 s
   i2 : Inv2 s
-  i3 : Inv3 s
   iL : InvL s
 
-theorem invs_execOk {cfg : Cfg} {ls : List Label} {s : St} (h : execOk (init cfg) ls = some s) : Invs s :=
-  execOk_invariant Invs
-    (fun _ _ _ hI hok hs => ⟨inv1_step hI.i1 hs, inv2_step hI.i1 hI.i2 hs, inv3_step hI.i1 hI.i3 hok hs,
-      invL_step hI.i1 hI.iL hs⟩)
-    ls _ s ⟨inv1_init cfg, inv2_init cfg, inv3_init cfg, invL_init cfg⟩ h
+theorem invs_reachable {cfg : Cfg} {s : St} (h : Reachable cfg s) : Invs s :=
+  reachable_invariant Invs cfg ⟨inv1_init cfg, inv2_init cfg, invL_init cfg⟩
+    (fun _ _ _ hI hs => ⟨inv1_step hI.i1 hs, inv2_step hI.i1 hI.i2 hs, invL_step hI.i1 hI.iL hs⟩) s h
 
 /-! ### when is a thread blocked -/
 
 theorem callerStep_none {lock : Option Tid} {evt alive : Bool} {i : Nat} {c : Caller}
     (h : callerStep lock evt alive i c = none) :
     c.prog = [] ∨ (c.pc = .acq ∧ lock ≠ none) ∨
-    (c.pc = .wait ∧ (∀ o, c.job ≠ .done o) ∧ c.prog.head? ≠ some .execTimed) ∨
+    (c.pc = .wait ∧ (∀ o, c.job ≠ .done o) ∧ c.prog.head? ≠ some .execTimed ∧ alive = true) ∨
     (c.pc = .waitEvt ∧ evt = false) ∨ (c.pc = .join ∧ alive = true) := by
   unfold callerStep at h
   rcases c with ⟨prog, pc, job, hist⟩
@@ -376,9 +92,13 @@ theorem stepJob_enabled {s : St} {j : Nat} {c : Caller} {k : JobKind} (ha : s.lo
   simp only [ha, hb, hc, hk]
   cases k <;> simp <;> (repeat' split) <;> simp
 
+/-- inside on_close_coro the loop thread's next statement is always enabled (it takes no lock) -/
+theorem stepClose_enabled_of_busy {s : St} (hb : s.closePc.busy = true) : stepClose s ≠ none := by
+  unfold stepClose
+  cases hp : s.closePc <;> simp_all [ClosePc.busy] <;> split <;> simp
+
 theorem stepClose_none {s : St} (h : stepClose s = none) :
-    s.closePc = .idle ∨ s.closePc = .done ∨ (s.closePc = .spawned ∧ s.callers.any isSubmitted = true) ∨
-    (s.closePc = .wantLock ∧ s.lock ≠ none) := by
+    s.closePc = .idle ∨ s.closePc = .done ∨ (s.closePc = .spawned ∧ s.callers.any isSubmitted = true) := by
   unfold stepClose at h
   split at h <;> rename_i hpc <;> (repeat' split at h) <;> simp_all
 
@@ -391,11 +111,15 @@ theorem any_isSubmitted_true {cs : List Caller} (h : cs.any isSubmitted = true) 
   · rename_i k hk; exact ⟨j, c, k, hj, hk⟩
   · simp at hs
 
-theorem not_busy_of_open {p : ClosePc} (h : p.sessClosed = false) : p.busy = false := by
-  cases p <;> simp_all [ClosePc.sessClosed, ClosePc.busy]
+theorem ginv_alive_of_not_done {s : St} (hg : ginv s = true) (h : s.closePc ≠ .done) : s.loopAlive = true := by
+  revert hg h; simp only [ginv]; cases s.closePc <;> simp_all
 
-theorem ginv_open_alive {s : St} (hg : ginv s = true) (h : s.closePc.sessClosed = false) : s.loopAlive = true := by
-  revert hg h; simp only [ginv, ClosePc.sessClosed]; cases s.closePc <;> simp_all
+/-- a submitted coroutine and a live loop: some transition is enabled -/
+theorem submitted_not_terminal {s : St} {j : Nat} {c : Caller} {k : JobKind} (ha : s.loopAlive = true)
+    (hc : s.callers[j]? = some c) (hk : c.job = .submitted k) (hterm : ∀ l, step s l = none) : False := by
+  cases hb : s.closePc.busy with
+  | true => exact stepClose_enabled_of_busy hb (hterm .close)
+  | false => exact stepJob_enabled ha hb hc hk (hterm (.job j))
 
 /-- in a state without enabled transition no caller thread owns `close_lock` -/
 theorem no_holder_when_terminal {s : St} (I : Invs s) (hterm : ∀ l, step s l = none) (k : Nat) :
@@ -411,12 +135,12 @@ theorem no_holder_when_terminal {s : St} (I : Invs s) (hterm : ∀ l, step s l =
     split at this
     · assumption
     · simp at this
-  obtain ⟨f, _, _, f4, _, _⟩ := I.i2 k c hc
-  rcases callerStep_none hn with h | ⟨h, _⟩ | ⟨h, hnd, hne⟩ | ⟨h, _⟩ | ⟨h, _⟩
+  obtain ⟨_, _, _, f4, _, _⟩ := I.i2 k c hc
+  rcases callerStep_none hn with h | ⟨h, _⟩ | ⟨h, hnd, hne, hal⟩ | ⟨h, _⟩ | ⟨h, _⟩
   · rcases c with ⟨prog, pc, job, hist⟩; simp only at h; subst h
     simp [pcOk] at hpc; subst hpc; simp [critPc] at hcr
   · rcases c with ⟨prog, pc, job, hist⟩; simp only at h; subst h; simp [critPc] at hcr
-  · -- at future.result() under the lock: the future is a submitted initiate_close / logout
+  · -- at _wait_for under the lock: the future is a submitted initiate_close / logout and the loop is alive
     rcases c with ⟨prog, pc, job, hist⟩
     simp only at h hnd hne; subst h
     cases prog with
@@ -428,10 +152,7 @@ theorem no_holder_when_terminal {s : St} (I : Invs s) (hterm : ∀ l, step s l =
       | done o => exact hnd o rfl
       | blocked t => cases op <;> simp_all [jobFits, Op.isClose]
       | running => cases op <;> simp_all [jobFits, Op.isClose]
-      | submitted kk =>
-        have hopen := (I.i3 k _ hc).1 kk rfl
-        simp only [St.sessClosed] at hopen
-        exact stepJob_enabled (ginv_open_alive I.i1.1 hopen) (not_busy_of_open hopen) hc rfl (hterm (.job k))
+      | submitted kk => exact submitted_not_terminal hal hc rfl hterm
   · rcases c with ⟨prog, pc, job, hist⟩; simp only at h; subst h; simp [critPc] at hcr
   · rcases c with ⟨prog, pc, job, hist⟩; simp only at h; subst h; simp [critPc] at hcr
 
@@ -441,7 +162,7 @@ theorem closing_completes {s : St} (I : Invs s) (hterm : ∀ l, step s l = none)
   have hg := I.i1.1
   have hc := hterm .close
   simp only [step] at hc
-  rcases stepClose_none hc with h | h | ⟨h, hs⟩ | ⟨h, hl⟩
+  rcases stepClose_none hc with h | h | ⟨h, hs⟩
   · exact absurd h hne
   · refine ⟨h, ?_⟩
     cases ha : s.loopAlive with
@@ -452,17 +173,11 @@ theorem closing_completes {s : St} (I : Invs s) (hterm : ∀ l, step s l = none)
       revert hg; simp only [ginv, h]; intro hg
       simp_all [ClosePc.busy]
   · obtain ⟨j, c, k, hj, hk⟩ := any_isSubmitted_true hs
-    have hopen : s.closePc.sessClosed = false := by simp [h, ClosePc.sessClosed]
-    exact absurd (hterm (.job j)) (stepJob_enabled (ginv_open_alive hg hopen) (not_busy_of_open hopen) hj hk)
-  · cases hlk : s.lock with
-    | none => exact absurd hlk hl
-    | some t =>
-      cases t with
-      | loop => revert hg; simp [ginv, h, hlk]
-      | caller k => exact absurd hlk (no_holder_when_terminal I hterm k)
+    have ha : s.loopAlive = true := ginv_alive_of_not_done hg (by simp [h])
+    exact (submitted_not_terminal ha hj hk hterm).elim
 
-/-- **no hang**: at the end of a maximal run that stayed outside the excluded region every caller thread has executed
-all its calls, or is in `receive()` on an open session with a live loop (waiting for the peer) -/
+/-- **no hang**: in a state without enabled transition every caller thread has executed all its calls, or is in
+`receive()` on an open session with a live loop (waiting for the peer) -/
 theorem terminal_all_returned {s : St} (I : Invs s) (hterm : ∀ l, step s l = none) :
     ∀ (i : Nat) (c : Caller), s.callers[i]? = some c → c.finished = true ∨ legitWait s c = true := by
   intro i c hc
@@ -475,7 +190,7 @@ theorem terminal_all_returned {s : St} (I : Invs s) (hterm : ∀ l, step s l = n
     · assumption
     · simp at this
   obtain ⟨_, hB, _, hfit, _, _⟩ := I.i2 i c hc
-  rcases callerStep_none hn with h | ⟨h, hl⟩ | ⟨h, hnd, hne⟩ | ⟨h, hev⟩ | ⟨h, hal⟩
+  rcases callerStep_none hn with h | ⟨h, hl⟩ | ⟨h, hnd, hne, hal⟩ | ⟨h, hev⟩ | ⟨h, hal⟩
   · left
     rcases c with ⟨prog, pc, job, hist⟩; simp only at h; subst h
     simp [pcOk] at hpc; subst hpc; simp [Caller.finished]
@@ -485,11 +200,7 @@ theorem terminal_all_returned {s : St} (I : Invs s) (hterm : ∀ l, step s l = n
     | some t =>
       cases t with
       | caller k => exact no_holder_when_terminal I hterm k hlk
-      | loop =>
-        -- the loop thread is inside on_close_coro: its next statement is enabled
-        have hcl := hterm .close
-        simp only [step] at hcl
-        rcases stepClose_none hcl with e | e | ⟨e, _⟩ | ⟨e, _⟩ <;> (revert hg; simp [ginv, e, hlk])
+      | loop => revert hg; simp [ginv, hlk]
   · rcases c with ⟨prog, pc, job, hist⟩
     simp only at h hnd hne; subst h
     cases prog with
@@ -499,16 +210,17 @@ theorem terminal_all_returned {s : St} (I : Invs s) (hterm : ∀ l, step s l = n
       | none => simp [jobOk] at hjob
       | done o => exact absurd rfl (hnd o)
       | running => cases op <;> simp_all [jobFits]
-      | submitted k =>
-        exfalso
-        have hopen := (I.i3 i _ hc).1 k rfl
-        simp only [St.sessClosed] at hopen
-        exact stepJob_enabled (ginv_open_alive hg hopen) (not_busy_of_open hopen) hc rfl (hterm (.job i))
+      | submitted k => exact (submitted_not_terminal hal hc rfl hterm).elim
       | blocked t =>
         right
-        have hopen := ((I.i3 i _ hc).2 t rfl).1
-        simp only [St.sessClosed] at hopen
-        simp [legitWait, St.sessClosed, hopen, ginv_open_alive hg hopen]
+        -- had a close been started it would have completed and the thread would be gone
+        have hidle : s.closePc = .idle := by
+          cases hp : s.closePc with
+          | idle => rfl
+          | _ =>
+            have := (closing_completes I hterm (by simp [hp])).2
+            simp [this] at hal
+        simp [legitWait, St.sessClosed, hidle, ClosePc.sessClosed, hal]
   · exfalso
     have hne : s.closePc ≠ .idle := hB (Or.inr (Or.inl h))
     obtain ⟨hd, _⟩ := closing_completes I hterm hne
@@ -517,5 +229,248 @@ theorem terminal_all_returned {s : St} (I : Invs s) (hterm : ∀ l, step s l = n
     have hne : s.closePc ≠ .idle := hB (Or.inr (Or.inr h))
     obtain ⟨_, hd⟩ := closing_completes I hterm hne
     simp [hd] at hal
+
+/-! ### inside `okStep`: a blocked receive is the one in the `_recv_task` slot; none survives the start of close() -/
+
+def cinv3 (closed : Bool) (rt : Option Nat) (i : Nat) (c : Caller) : Prop :=
+  ∀ t, c.job = .blocked t → closed = false ∧ rt = some i
+
+def Inv3 (s : St) : Prop :=
+  ∀ (i : Nat) (c : Caller), s.callers[i]? = some c → cinv3 s.sessClosed s.recvTask i c
+
+theorem sessClosed_initiate (p : ClosePc) : p.initiate.sessClosed = p.sessClosed := by
+  cases p <;> rfl
+
+theorem anyBlocked_false {cs : List Caller} (h : anyBlocked cs = false) :
+    ∀ (m : Nat) (c : Caller), cs[m]? = some c → ∀ t, c.job ≠ .blocked t := by
+  intro m c hc t ht
+  have hmem : c ∈ cs := List.mem_of_getElem? hc
+  have : anyBlocked cs = true := by
+    unfold anyBlocked
+    exact List.any_eq_true.mpr ⟨c, hmem, by simp [ht]⟩
+  simp [h] at this
+
+theorem callerStep_cinv3 {lock : Option Tid} {evt alive closed : Bool} {rt : Option Nat} {i : Nat} {c c' : Caller}
+    {lk : Option Tid} (h3 : cinv3 closed rt i c) (hj : jobOk c = true)
+    (h : callerStep lock evt alive i c = some (c', lk)) : cinv3 closed rt i c' := by
+  unfold callerStep at h
+  rcases c with ⟨prog, pc, job, hist⟩
+  cases prog with
+  | nil => simp at h
+  | cons op rest =>
+    simp only [cinv3] at h3
+    cases pc <;> cases op <;> simp only [] at h <;> (repeat' (split at h)) <;>
+      first
+      | (simp only [reduceCtorEq] at h; done)
+      | (simp only [Option.some.injEq, Prod.mk.injEq] at h
+         obtain ⟨rfl, rfl⟩ := h
+         simp_all [cinv3, jobOk, finish])
+
+theorem inv3_stepCaller {s s' : St} {i : Nat} (h1 : Inv1 s) (h3 : Inv3 s)
+    (h : stepCaller s i = some s') : Inv3 s' := by
+  obtain ⟨c, c', lk, hc, hcs, rfl⟩ := stepCaller_spec h
+  have hc3 := callerStep_cinv3 (h3 i c hc) (h1.2 i c hc).2.1 hcs
+  intro j cj hj
+  simp only [St.sessClosed] at hj ⊢
+  rw [getElem?_updAt] at hj
+  split at hj
+  · subst j; simp [hc] at hj; subst hj; exact hc3
+  · exact h3 j cj hj
+
+theorem cinv3_not_blocked {closed : Bool} {rt : Option Nat} {i : Nat} {c : Caller} (h : ∀ t, c.job ≠ .blocked t) :
+    cinv3 closed rt i c := fun t ht => absurd ht (h t)
+
+theorem inv3_stepJob {s s' : St} {i : Nat} (h3 : Inv3 s) (hok : okStep s (.job i) = true)
+    (h : stepJob s i = some s') : Inv3 s' := by
+  unfold stepJob at h
+  split at h
+  · split at h
+    · simp at h
+    · rename_i c hc
+      have easy : ∀ (j : Job) (q : Nat) (p : ClosePc) (pe : List PeerEv), p.sessClosed = s.closePc.sessClosed →
+          (∀ t, j ≠ .blocked t) →
+          Inv3 { s with callers := updAt s.callers i (setJob j), queue := q, closePc := p, peer := pe } := by
+        intro j q p pe hp hcj m cm hm
+        simp only [St.sessClosed, hp] at hm ⊢
+        rw [getElem?_updAt] at hm
+        split at hm
+        · subst m; simp [hc] at hm; subst hm; exact cinv3_not_blocked (by simpa [setJob] using hcj)
+        · exact h3 m cm hm
+      split at h
+      · rename_i hjob
+        split at h
+        · simp only [Option.some.injEq] at h; subst h
+          exact easy _ _ _ _ rfl (by simp)
+        · split at h
+          · simp only [Option.some.injEq] at h; subst h
+            exact easy _ s.queue _ s.peer rfl (by simp)
+          · rename_i hq hcl
+            simp only [Option.some.injEq] at h; subst h
+            have hnb : anyBlocked s.callers = false := by
+              simp only [okStep, hc, hjob] at hok
+              have hq0 : s.queue = 0 := by omega
+              simp only [Bool.not_eq_true] at hcl
+              simpa [hq0, hcl] using hok
+            intro m cm hm
+            simp only [St.sessClosed] at hm ⊢
+            rw [getElem?_updAt] at hm
+            split at hm
+            · subst m; simp [hc] at hm; subst hm
+              simp only [Bool.not_eq_true] at hcl
+              simp [cinv3, setJob, St.sessClosed] at hcl ⊢
+              exact hcl
+            · intro t ht
+              exact absurd ht (anyBlocked_false hnb m cm hm t)
+      · simp only [Option.some.injEq] at h; subst h
+        exact easy _ s.queue _ s.peer rfl (by simp)
+      · simp only [Option.some.injEq] at h; subst h
+        exact easy _ s.queue _ s.peer (sessClosed_initiate _) (by simp)
+      · simp only [Option.some.injEq] at h; subst h
+        exact easy _ s.queue _ [] (sessClosed_initiate _) (by simp)
+      · simp only [Option.some.injEq] at h; subst h
+        exact easy _ s.queue _ s.peer rfl (by simp)
+      · simp at h
+  · simp at h
+
+theorem not_blocked_resolveBlocked (o : Outcome) (c : Caller) : ∀ t, (resolveBlocked o c).job ≠ .blocked t := by
+  unfold resolveBlocked
+  split
+  · simp
+  · rename_i hnb; exact fun t ht => hnb t ht
+
+theorem inv3_stepClose {s s' : St} (h3 : Inv3 s) (h : stepClose s = some s') : Inv3 s' := by
+  unfold stepClose at h
+  split at h <;> rename_i hpc
+  · simp at h
+  · split at h
+    · simp at h
+    · split at h
+      · rename_i jj hrt
+        simp only [Option.some.injEq] at h; subst h
+        intro m cm hm
+        apply cinv3_not_blocked
+        simp only at hm
+        rw [getElem?_updAt] at hm
+        split at hm
+        · subst m
+          cases hj : s.callers[jj]? with
+          | none => simp [hj] at hm
+          | some cj => simp [hj] at hm; subst hm; exact not_blocked_resolveBlocked _ _
+        · rename_i hne
+          intro t ht
+          have := ((h3 m cm hm) t ht).2
+          rw [hrt] at this
+          simp at this
+          exact hne this.symm
+      · rename_i hrt
+        simp only [Option.some.injEq] at h; subst h
+        intro m cm hm
+        apply cinv3_not_blocked
+        intro t ht
+        have := ((h3 m cm hm) t ht).2
+        rw [hrt] at this
+        simp at this
+  all_goals
+    ((repeat' split at h) <;> first
+      | (simp at h; done)
+      | (simp only [Option.some.injEq] at h; subst h
+         intro m cm hm
+         have := h3 m cm hm
+         simpa [St.sessClosed, hpc, ClosePc.sessClosed] using this))
+
+theorem inv3_stepStop {s s' : St} (h3 : Inv3 s) (h : stepStop s = some s') : Inv3 s' := by
+  unfold stepStop at h
+  split at h
+  · simp only [Option.some.injEq] at h; subst h; exact h3
+  · simp at h
+
+theorem inv3_stepPeer {s s' : St} (h3 : Inv3 s) (h : stepPeer s = some s') : Inv3 s' := by
+  unfold stepPeer at h
+  split at h
+  · simp at h
+  · rename_i ev rest hp
+    split at h
+    · simp at h
+    · split at h
+      · simp only [Option.some.injEq] at h; subst h; exact h3
+      · split at h
+        · split at h
+          · simp only [Option.some.injEq] at h; subst h; exact h3
+          · split at h
+            · rename_i hh t hm
+              simp only [Option.some.injEq] at h; subst h
+              -- after the wake-up nobody is blocked any more: a blocked caller is the one in the slot
+              intro m cm hcm
+              simp only [St.sessClosed] at hcm ⊢
+              have base : ∀ c0, (updAt s.callers hh (setJob (.done .msg)))[m]? = some c0 →
+                  (∀ t, c0.job = .blocked t → s.recvTask = some m ∧ m ≠ hh) := by
+                intro c0 h0
+                rw [getElem?_updAt] at h0
+                split at h0
+                · subst m
+                  cases hj : s.callers[hh]? with
+                  | none => simp [hj] at h0
+                  | some cj => simp [hj] at h0; subst h0; simp [setJob]
+                · rename_i hne
+                  have := h3 m c0 h0
+                  exact fun t ht => ⟨(this t ht).2, hne⟩
+              split at hcm
+              · rename_i jj hrt
+                split at hcm
+                · have b2 := base cm hcm
+                  intro t ht
+                  have := b2 t ht
+                  rw [hrt] at this
+                  simp at this
+                  omega
+                · rename_i hjne
+                  rw [getElem?_updAt] at hcm
+                  split at hcm
+                  · subst m
+                    cases hj : (updAt s.callers hh (setJob (.done .msg)))[jj]? with
+                    | none => simp [hj] at hcm
+                    | some cj =>
+                      simp [hj] at hcm; subst hcm
+                      exact cinv3_not_blocked (not_blocked_resolveBlocked _ _)
+                  · rename_i hmne
+                    have b2 := base cm hcm
+                    intro t ht
+                    have := (b2 t ht).1
+                    rw [hrt] at this
+                    simp at this
+                    exact absurd this.symm hmne
+              · rename_i hrt
+                have b2 := base cm hcm
+                intro t ht
+                have := (b2 t ht).1
+                rw [hrt] at this
+                simp at this
+            · simp only [Option.some.injEq] at h; subst h; exact h3
+        all_goals
+          (simp only [Option.some.injEq] at h; subst h
+           intro m cm hm
+           have := h3 m cm hm
+           simpa [St.sessClosed, sessClosed_initiate] using this)
+
+theorem inv3_step {s s' : St} {l : Label} (h1 : Inv1 s) (h3 : Inv3 s) (hok : okStep s l = true)
+    (h : step s l = some s') : Inv3 s' := by
+  cases l with
+  | caller i => exact inv3_stepCaller h1 h3 h
+  | job i => exact inv3_stepJob h3 hok h
+  | close => exact inv3_stepClose h3 h
+  | stop => exact inv3_stepStop h3 h
+  | peer => exact inv3_stepPeer h3 h
+
+theorem inv3_init (cfg : Cfg) : Inv3 (init cfg) := by
+  intro i c hc
+  simp only [init, List.getElem?_map] at hc
+  cases hp : cfg.progs[i]? with
+  | none => simp [hp] at hc
+  | some p => simp [hp] at hc; subst hc; simp [cinv3, initCaller]
+
+theorem inv3_execOk {cfg : Cfg} {ls : List Label} {s : St} (h : execOk (init cfg) ls = some s) : Inv3 s :=
+  (execOk_invariant (fun s => Inv1 s ∧ Inv3 s)
+    (fun _ _ _ hI hok hs => ⟨inv1_step hI.1 hs, inv3_step hI.1 hI.2 hok hs⟩)
+    ls _ s ⟨inv1_init cfg, inv3_init cfg⟩ h).2
 
 end NasdaqModel.SyncFacade
